@@ -142,14 +142,17 @@ def run_workers(pid, tier, seed, cases_file=None, workers=None, budget=None):
         if cases_file:
             cmd += ["--cases", cases_file]
         procs.append((subprocess.Popen(cmd, env=env, cwd=VERIF, stdout=subprocess.PIPE,
-                                       stderr=subprocess.STDOUT, text=True), out))
+                                       stderr=subprocess.STDOUT, text=True, start_new_session=True), out))
     results = []
     infra = []
     for p, out in procs:
         try:
             log, _ = p.communicate(timeout=budget * 3 + 120)
         except subprocess.TimeoutExpired:
-            p.kill()
+            try:
+                os.killpg(p.pid, 9)
+            except OSError:
+                p.kill()
             log = "worker timeout"
             infra.append(log)
         if os.path.exists(out):
